@@ -163,7 +163,7 @@ type settings struct {
 }
 
 func loadSettings(t *testing.T) *settings {
-	flags := []string{"installPackagePath=/repo/manifests", "profile=empty", "components.pilot.enabled=true"}
+	flags := []string{"installPackagePath=" + vlib.RepoDir() + "/manifests", "profile=empty", "components.pilot.enabled=true"}
 	manifests, _, err := render.GenerateManifest(nil, flags, false, nil, nil)
 	if err != nil {
 		t.Fatalf("render: %v", err)
